@@ -157,6 +157,7 @@ func (w *World) NewEngine() *Engine {
 	e := &Engine{w: w, r: w.r, PermDen: 1, MaxActions: 2000, procs: map[*Proc]*procState{}, byActor: map[*Actor]*actorState{}}
 	e.Bound = time.Duration(w.Cfg.TimeoutSec+15) * time.Second
 	e.BehavFor = func(p *Proc) *Behav { return &Behav{ThenHealthy: true, Subs: []string{"INVOKE", "SHUTDOWN"}} }
+	w.Eng = e
 	return e
 }
 
